@@ -168,6 +168,34 @@ theorem special_encodings (t : TS) (us : Int) (bs : List UInt8) :
     encode (.cbytes bs) = .ok (.str (String.ofList (b64encode bs))) := by
   refine ⟨?_, ?_, ?_⟩ <;> rfl
 
+/-- **The encoder on every CEL value** (not only on converted documents): for any value built from `None` and the celtypes
+wrappers — lists and maps nested to any depth, maps keyed by the valid key types string / bool / int / uint, every map a
+well-formed dict (`PV.celWF`) — `CELJSONEncoder` succeeds and writes the kind-directed document `jsonOfCel v`: a boolean is
+`true`/`false` wherever it sits (top level, list item, member value, map key — never `1`/`0`), ints and uints are numbers,
+timestamps / durations / bytes are their RFC 3339 / seconds / base64 text at any depth, keys are written as JSON strings. -/
+theorem encode_spec (v : PV) (h : v.celWF = true) : encode v = .ok (jsonOfCel v) := jsonEnc_toPython v h
+
+/-- instances of `encode_spec` that name the positions explicitly: a boolean that is a direct list item, a boolean under a
+boolean key inside a list, a negative fractional duration inside a map inside a list -/
+theorem bool_in_any_position (b : Bool) (us : Int) :
+    encode (.clist [.cbool b]) = .ok (.arr [.bool b]) ∧
+    encode (.clist [.cmap [(.cbool b, .cbool b)]]) = .ok (.arr [.obj [(if b then "true" else "false", .bool b)]]) ∧
+    encode (.clist [.cmap [(.cstr "d", .cdur us)]]) = .ok (.arr [.obj [("d", .str (String.ofList (durStr us)))]]) := by
+  refine ⟨?_, ?_, ?_⟩
+  · rw [encode_spec _ (by simp [PV.celWF, celWFL])]; simp [jsonOfCel, jsonOfCelL]
+  · rw [encode_spec _ (by simp [PV.celWF, celWFL, celWFK, PV.isCelKey, pairKeysDistinct])]
+    simp [jsonOfCel, jsonOfCelL, jsonOfCelK, celKeyName]
+  · rw [encode_spec _ (by simp [PV.celWF, celWFL, celWFK, PV.isCelKey, pairKeysDistinct])]
+    simp [jsonOfCel, jsonOfCelL, jsonOfCelK, celKeyName]
+
+/-- non-vacuity of `encode_spec`: a well-formed value with all four key types, a nested list and the three special types;
+and the hypothesis is needed — `True` and `1` are the same dict key, such a "map" is not a dict -/
+example : (PV.cmap [(.cstr "a", .clist [.cbool true, .cts ⟨2009, 2, 13, 23, 31, 30, 0, 0⟩]), (.cbool false, .cbytes [77]),
+    (.cint 7, .cdur (-1500000)), (.cuint 8, .none)]).celWF = true := by decide
+example : (PV.cmap [(.cbool true, .none), (.cint 1, .none)]).celWF = false := by decide
+/-- without `to_python`'s recursion into list items the same value would be written `[1]` -/
+example : jsonEnc (.clist [.cbool true]) = .ok (.arr [.int 1]) := by decide
+
 example : String.ofList (tsStr ⟨2009, 2, 13, 23, 31, 30, 123456, 0⟩) = "2009-02-13T23:31:30Z" := by decide
 example : String.ofList (tsStr ⟨2009, 2, 13, 23, 31, 30, 0, -330⟩) = "2009-02-13T23:31:30-05:30" := by decide
 
